@@ -467,8 +467,28 @@ def gen_program(rng, missing_names=None, max_stmts=8, allow_nested_imports=True)
                 lines.append("def %s():\n    acc = []\n    def inner():\n        nonlocal acc\n        acc.append(%s)\n        return acc\n    return inner()" % (fname, e1))
                 funcs.append(fname)
                 env[fname] = "localfn"
-            else:
+            elif k < 0.90:
                 lines.append("async def co%d():\n    async with %s as cm0:\n        return [j async for j in %s]" % (len(lines), e1, e2))
+            elif k < 0.94:
+                # decorated coroutine / class: the decorator call is an observable operation and its lines belong to
+                # the definition, not to an import statement in front of it
+                decos = _callable_exprs(uenv, rng) or ["(lambda fn: fn)"]
+                d1 = rng.choice(decos)
+                if rng.random() < 0.6:
+                    lines.append("@%s\n%sasync def co%d():\n    return 1" % (d1, "@(lambda fn: fn)\n" if rng.random() < 0.3 else "", len(lines)))
+                else:
+                    lines.append("@%s\nclass Deco%d:\n    pass" % (d1, len(lines)))
+            else:
+                # a bare annotation declares, it does not bind: the imported name stays what the import made it
+                cands = [n for n, kd in env.items() if kd in ("fn", "int", "cls") or kd.startswith("mod:")]
+                if cands:
+                    nm = rng.choice(cands)
+                    if rng.random() < 0.5:
+                        lines.append("%s: int" % nm)
+                    else:
+                        lines.append("class Fld%d:\n    %s: int\n    y0 = %s" % (len(lines), nm, nm))
+                else:
+                    lines.append("pass")
         elif r < 0.96 and not have_all:
             names = [k for k, v in env.items() if v in ("fn", "int", "cls") or v.startswith("mod:")]
             if names:
